@@ -15,7 +15,8 @@ CHECKS = {
               "action: a recycled or gone object must raise NoSuchProcess with nothing delivered, a live one gets exactly one delivery with exactly the requested value, and no kill() "
               "with pid <= 0 ever occurs. A live tier kills real children with 16 signals. Search, not proof."
               " Histories also contain Process.wait(), open oneshot() blocks and the caller continuing as a forked worker on a recycled PID."
-              " Actions are also attempted while one OS access about the PID fails with EMFILE/ENFILE/ENOMEM/EIO (nothing may reach a new owner)."),
+              " Actions are also attempted while one OS access about the PID fails with EMFILE/ENFILE/ENOMEM/EIO (nothing may reach a new owner)."
+              " Process names may contain parentheses and blanks."),
         note=("Trusted: vlib/simk.py syscall model and delivery log, vlib/history.py. Reuse within one clock tick is documented as indistinguishable and not generated; what cpu_affinity([]) selects is left to C18."),
         design="DESIGN.md section 3 C01",
     ),
@@ -26,7 +27,8 @@ CHECKS = {
               "is_running(), process_iter(), str() and other calls are interpreted against the real code; after every step every pair of objects is compared (==, !=, hash) with "
               "the ghost incarnation ids, hashes must never change, is_running() must equal 'own incarnation still in the table' and never come back to True. Search, not proof."
               " Histories also contain Process.wait(), open oneshot() blocks and the caller continuing as a forked worker on a recycled PID."
-              " Objects include psutil.Popen instances; is_running() is also asked while one access fails transiently."),
+              " Objects include psutil.Popen instances; is_running() is also asked while one access fails transiently."
+              " Process names may contain parentheses and blanks; a live process may rename itself."),
         note=("Trusted: vlib/simk.py, vlib/history.py. Reuse within one clock tick not generated; objects only for listed PIDs."),
         design="DESIGN.md section 3 C02",
     ),
@@ -49,7 +51,8 @@ CHECKS = {
               "point, complete passes with several attrs choices, cache_clear(), is_running() on cached objects, and pid_exists()/pids() over listed PIDs, TIDs, absent, negative and huge "
               "numbers. A reference model checks order, membership, completeness, object identity across clean passes, fresh objects after absence / clear / reuse detection, info keys and "
               "convergence. Two recorded known findings are excluded by construction and re-checked from their replay files. Search, not proof; no thread-level schedules."
-              " Status files can be made unreadable (hidepid) so that pid_exists() takes its fallback path."),
+              " Status files can be made unreadable (hidepid) so that pid_exists() takes its fallback path."
+              " wait() may be called on a cached object whose process ended before its PID is taken again."),
         note=("Trusted: vlib/simk.py, vlib/history.py. A listed PID vanishing before its turn may be yielded or skipped; identity asserted only between passes during which no other iterator advanced."),
         design="DESIGN.md section 3 C04",
     ),
@@ -59,7 +62,8 @@ CHECKS = {
         text=("Generated process tables (arbitrary parent maps incl. self-loops, cycles, unlisted parents; start-time orders incl. ties; zombies), the caller's PID recycled after object creation "
               "and other processes vanishing at generated accesses during the walk are run through the real children/parent/parents over a simulated procfs and compared with a reference "
               "graph model; all parent maps x start orders x callers for n<=3 (quick) / n<=4 (thorough) are enumerated exhaustively. Search, not proof, beyond those sizes."
-              " The same object may have answered ppid()/parent() before and the caller may get another parent before the questions (re-parenting)."),
+              " The same object may have answered ppid()/parent() before and the caller may get another parent before the questions (re-parenting)."
+              " PID 0 may be a listed process (and a parent)."),
         note=("Trusted: vlib/simk.py process table. Root (lowest listed PID) may answer None; parents() only on acyclic chains; paths through an excluded older node accepted either way."),
         design="DESIGN.md section 3 C05",
     ),
@@ -69,7 +73,8 @@ CHECKS = {
         text=("Generated stat/status/task records (hostile names, counters to 2^64-1, old-kernel layouts, 1..n threads) "
               "are served to the real psutil code through an interposed file layer; each listed method must return the model value. "
               "Search, not proof: bounded by the case counts in evidence."
-              " A third of the cases run right after another generated case in the same interpreter with only psutil's documented cross-call state reset (answers may not depend on what was observed before). A quarter of the cases run with psutil.PROCFS_PATH pointing elsewhere (the literal /proc then does not exist)."),
+              " A third of the cases run right after another generated case in the same interpreter with only psutil's documented cross-call state reset (answers may not depend on what was observed before). A quarter of the cases run with psutil.PROCFS_PATH pointing elsewhere (the literal /proc then does not exist)."
+              " The oneshot() block may be left by the caller's own exception before the process changes and is asked again."),
         note=("Trusted: vlib/simk.py renderers (calibrated every run against live /proc/self/{stat,status} and live threads renamed "
               "with prctl), Hypothesis. Names are NUL-free and <= 15 bytes; kernels other than the sandbox's are modelled from proc(5)."),
         design="DESIGN.md section 3 C06",
@@ -124,7 +129,8 @@ CHECKS = {
         text=("Generated TCP/UDP/UNIX socket tables (arbitrary and special addresses, port 0, all TCP states, UNIX paths with spaces and abstract names, odd short lines) with 0-4 holders "
               "per socket across readable and unreadable processes are parsed by the real code for one of the 11 kinds per case, system-wide and per-process; rows are compared as sets "
               "with the model; invalid kinds must raise ValueError. Search, not proof."
-              " A third of the cases run right after another generated case in the same interpreter with only psutil's documented cross-call state reset (answers may not depend on what was observed before). A quarter of the cases run with psutil.PROCFS_PATH pointing elsewhere (the literal /proc then does not exist)."),
+              " A third of the cases run right after another generated case in the same interpreter with only psutil's documented cross-call state reset (answers may not depend on what was observed before). A quarter of the cases run with psutil.PROCFS_PATH pointing elsewhere (the literal /proc then does not exist)."
+              " inet and UNIX sockets not attached to a file (inode 0) occur in both kinds of table."),
         note=("Trusted: vlib/simk.py, the /proc/net renderers (calibrated each run against live loopback IPv4/IPv6/UNIX sockets). Socket tuples unique per table; any visible holder accepted for inet sockets."),
         design="DESIGN.md section 3 C11",
     ),
@@ -145,7 +151,8 @@ CHECKS = {
         text=("Generated statm tuples and smaps listings (repeated paths, paths with spaces/colons/' (deleted)', optional and non-kB lines, values to 2^40 kB, old-kernel line sets) with the "
               "roll-up file present or failing are parsed by the real code; memory_info, memory_full_info (both sources), memory_maps (both forms, conservation of sums) and memory_percent "
               "are compared with the model. Search, not proof."
-              " A third of the cases run right after another generated case in the same interpreter with only psutil's documented cross-call state reset (answers may not depend on what was observed before). A quarter of the cases run with psutil.PROCFS_PATH pointing elsewhere (the literal /proc then does not exist)."),
+              " A third of the cases run right after another generated case in the same interpreter with only psutil's documented cross-call state reset (answers may not depend on what was observed before). A quarter of the cases run with psutil.PROCFS_PATH pointing elsewhere (the literal /proc then does not exist)."
+              " MemTotal may change before memory_percent() is asked again (after virtual_memory() reported the new total)."),
         note=("Trusted: vlib/simk.py smaps/statm renderers, calibrated byte-exactly against the live /proc/self/smaps each run. The roll-up holds exact sums; all mappings of a process print the same set of lines."),
         design="DESIGN.md section 3 C13",
     ),
@@ -166,7 +173,7 @@ CHECKS = {
               "for child / non-child / never-existed PIDs, exit codes 0-255 and signals 1-64, all timeout classes, EINTR on any subset of waitpid calls and repeated calls; the oracle "
               "checks status decoding, never-early return, caching without syscalls, TimeoutExpired fields and timing (>= deadline, <= deadline + 40 ms, process alive at the last completed "
               "poll), the back-off sequence, timeout=0 without sleeps, and wait_procs partition / returncode / callback / elapsed rules. Live tier: values on 9 real children. Search, not proof."
-              " Sleeps may last 50-300 % longer than asked (the deadline is a clock time; lateness bound = one such poll)."),
+              " Sleeps may last 50-300 % longer than asked (the deadline is a clock time; lateness bound = one such poll). Non-children may be invisible in procfs (hidepid=2) while kill(pid, 0) still finds them."),
         note=("Trusted: vlib/simk.py waitpid/kill/virtual-time model (step-bounded, no wall clock). Real scheduler latency is not measured; a poll interrupted by EINTR is treated as carrying no information."),
         design="DESIGN.md section 3 C15",
     ),
@@ -202,7 +209,7 @@ CHECKS = {
               "and after every request the kernel is read through os.getpriority, a raw ioprio_get syscall, os.sched_getaffinity and resource.prlimit for the child, a bystander and the "
               "harness: get == kernel, successful set == exactly the request, invalid requests raise ValueError and change nothing, nobody else changes, cpu_affinity([]) yields the "
               "all-ones mask. A simulated tier repeats the requests over 7 Cpus_allowed_list shapes with a cpuset model. Search, not proof."
-              " The simulated tier varies the CPU count (1-128), hot-plugs CPUs between requests and precedes sequences with a cpu_affinity([]) made with fewer CPUs online."),
+              " The simulated tier varies the CPU count (1-128), hot-plugs CPUs between requests and precedes sequences with a cpu_affinity([]) made with fewer CPUs online. Limits include the largest finite values (2^63-1, 2^63-2)."),
         note=("Trusted: the os/resource/ctypes read paths, vlib/simk.py. Runs as root in the sandbox; limits that would kill the child are offset to large values; a child that dies makes the case inconclusive; "
               "mixed existing/non-existing CPU lists are accepted either way."),
         design="DESIGN.md section 3 C18",
@@ -226,7 +233,7 @@ CHECKS = {
               "NoSuchProcess / ZombieProcess / AccessDenied with pid and cached name, or the original error unchanged, per the per-platform contract. Records whose every slot holds a distinct "
               "value must surface in the documented named tuple fields according to slot tables hand-derived from the native builders. Front-end post-processing (MAC padding, Windows broadcast) "
               "and documented name availability are checked per platform. Search, not proof."
-              " Method x errno x call index is also enumerated per platform; two-step faults: procfs items vanishing then a different stat() error (SunOS/AIX), a Windows ERROR_PARTIAL_COPY retry failing with another error."),
+              " Method x errno x call index is also enumerated per platform; two-step faults: procfs items vanishing then a different stat() error (SunOS/AIX), a Windows ERROR_PARTIAL_COPY retry failing with another error. Generators returned by a platform method are consumed inside the guarded call."),
         note=("Trusted: the stub native modules and slot tables in props/c20_platforms.py. The native C/Obj-C code of other platforms is not compiled or executed. A failure swallowed by a "
               "documented fall-back is counted, not judged; Windows ppid() (system-wide native call only) is crash-freedom only."),
         design="DESIGN.md section 3 C20",
